@@ -25,7 +25,10 @@ Pick == LET k == R(Keys) a == R(Arr) i == R(Slots) b == R({0, 1}) IN
         \/ ExportCloud(k) \/ ExportSecret(k) \/ ExportCts(a) \/ ImportCts(a)
         \/ (steps > 8 /\ Delete(R(Objs)))
 WindDown == (\E o \in Objs : Delete(o)) \/ Finalize
-GNext == (IF Busy THEN Pick ELSE WindDown) /\ hist' = Append(hist, last')
+\* the executor: one step in four runs on a helper thread that is created for it and exits right after (Life has no thread in its state:
+\* no object of the API is bound to the thread that created it - which is what Trace_Life then checks on the observations)
+Exec(s) == IF R(1..4) = 1 THEN "helper" ELSE "run"      \* (an argument, so that TLC does not evaluate it once and for all)
+GNext == (IF Busy THEN Pick ELSE WindDown) /\ hist' = Append(hist, last' @@ [th |-> Exec(steps)])
 GSpec == GInit /\ [][GNext]_gvars
 Dump == Terminal => ndJsonSerialize(IOEnv.GEN_OUT \o ToString(TLCGet("stats").traces) \o ".ndjson", hist)
 =============================================================================
